@@ -217,9 +217,37 @@ class NaiveCase(Case):
     return (this, tfc.sym([1, cfg['units']], 'm')), {}
 
 
+class LayerWiringCase(Case):
+  """PWLCalibration.build attaches, to every trainable variable, a constraint whose (proved) contract
+  implies the invariant of the LAYER's own hyperparameters: monotone keypoint outputs, keypoint outputs and
+  the learned missing output inside the configured bounds - including one-sided bounds."""
+  contract_key = None
+  xcheck = False
+
+  def body(self, cfg, c):
+    from vt import kerasc
+    import props.C03 as C03
+    ly = load.mod('pwl_calibration_layer')
+    notes = set()
+
+    def provider(layer, name, shape, dt, init, cons):
+      if not getattr(layer, '_vt_adding_trainable', True):
+        return None
+      return C03.reachable(c, layer, name, shape, dt, cons, notes)
+    kerasc.WEIGHT_PROVIDER[0] = provider
+    try:
+      layer = ly.PWLCalibration(**cfg['kw'])
+      layer.build(tfc.TensorShape([None, cfg['kw'].get('units', 1)]))
+    finally:
+      kerasc.WEIGHT_PROVIDER[0] = None
+    cl = [('layer-invariant:' + n, b) for n, b in C03.PwlCall().invariant(layer)]
+    cl.append(('has-obligations', E.TRUE))
+    return cl
+
+
 CASES = {'pcv': PcvCase(), 'pm': PmCase(), 'apc': ApcCase(), 'sq': SqCase(), 'bo': BoCase(), 'pbcm': PbcmCase(),
          'fin': FinCase(), 'pac': PacCase(), 'constraint_call': ConstraintCallCase(),
-         'naive_bounds': NaiveCase()}
+         'naive_bounds': NaiveCase(), 'layer_wiring': LayerWiringCase()}
 
 
 def base_space():
@@ -240,6 +268,14 @@ def base_space():
 
 def configs(tier, rng):
   jobs = []
+  for mono in ('none', 'increasing', 'decreasing'):
+    for (lo, hi) in ((None, None), (0.0, None), (None, 1.0), (-1.0, 2.0), (0.0, 0.0)):
+      for units in (1, 2):
+        for missing in (False, True):
+          kw = dict(input_keypoints=[0.0, 1.0, 3.0], units=units, monotonicity=mono, output_min=lo, output_max=hi)
+          if missing:
+            kw.update(impute_missing=True, missing_input_value=-5.0)
+          jobs.append(('layer_wiring', dict(kw=kw)))
   nks = [2, 3, 4, 5] if tier == 'quick' else [2, 3, 4, 5, 6]
   for i, base in enumerate(base_space()):
     for nk in nks:
